@@ -207,12 +207,12 @@ func isolated(op string, args []string, data []byte) string {
 	case callResource:
 		return "SKIP: resource exhaustion in worker (not a stated failure mode): " + firstLine(detail)
 	case callCrash:
-		return fmt.Sprintf("FAIL: worker process died (not an out-of-memory death) while running %s %v:\n%s", op, args, detail)
+		return fmt.Sprintf("FAIL: worker process died (not an out-of-memory death) while running %s %s:\n%s", op, clipS(fmt.Sprint(args)), detail)
 	default:
 		// confirm the hang on a fresh worker before believing it
 		_, st2, detail2 := callWorker(op, args, data, 60*time.Second)
 		if st2 == callHang {
-			return fmt.Sprintf("FAIL: %s %v did not return within 60 s, twice (goroutine dump):\n%s", op, args, detail2)
+			return fmt.Sprintf("FAIL: %s %s did not return within 60 s, twice (goroutine dump):\n%s", op, clipS(fmt.Sprint(args)), detail2)
 		}
 		return "SKIP: one slow run, not reproduced"
 	}
